@@ -104,6 +104,9 @@ func readPointsFromIO(data io.ReadCloser, points chan<- edge.PointMessage, preci
 		if err != nil {
 			return err
 		}
+		if len(mps) == 0 {
+			return fmt.Errorf("invalid replay file format, %q is not a point", line)
+		}
 		mp := mps[0]
 
 		mpfields, err := mp.Fields()
